@@ -710,7 +710,7 @@ fn build(sibs: &[Sib]) -> Built {
                 // The later child is registered first.
                 let late_file = if s.file == "zoo.rs" { "zoo.rs" } else { "zz.rs" };
                 CURRENT_FILE.with(|f| f.set(late_file));
-                b.benches.push(bench_entry("inner_late", leak(&format!("zoo::{}", raw_of(s.name))), 1000 + s.line, 3));
+                b.benches.push(bench_entry("inner_late", leak(&format!("zoo::{}", raw_of(s.name))), 1000 + s.line, s.col + 2));
                 CURRENT_FILE.with(|f| f.set(s.file));
                 b.benches.push(bench_entry("inner", leak(&format!("zoo::{}", raw_of(s.name))), s.line, s.col));
             }
@@ -934,6 +934,34 @@ fn check_siblings(cli: &Cli, r: &Report) {
                             case: json!({"kind":"siblings","attr":attr,"sibs": sibs.iter().map(|s| json!([s.kind, s.name, s.line, s.col, s.file])).collect::<Vec<_>>()}),
                         });
                     }
+                }
+            }
+            // The same set with a filter that removes the early item of every two-item plain module: the module is
+            // then positioned by the item that is left (its late one), whatever was known about it before filtering.
+            // (not in the layout that puts every sibling at one and the same location: the late items would tie as well)
+            let one_spot = sibs.len() > 1 && sibs.windows(2).all(|w| (w[0].file, w[0].line, w[0].col) == (w[1].file, w[1].line, w[1].col));
+            if sibs.iter().any(|x| x.kind == 3) && sibs.iter().all(|x| x.kind != 6) && !one_spot {
+                let mut filters = verif::Filters::new();
+                filters.exclude("::inner$", false);
+                let moved: Vec<Sib> = sibs
+                    .iter()
+                    .map(|x| if x.kind == 3 { Sib { kind: 3, name: x.name, file: if x.file == "zoo.rs" { "zoo.rs" } else { "zz.rs" }, line: 1000 + x.line, col: x.col + 2 } } else { Sib { kind: x.kind, name: x.name, file: x.file, line: x.line, col: x.col } })
+                    // a group module of the set loses its only item and disappears
+                    .filter(|x| x.kind != 2)
+                    .collect();
+                let ffwd = verif::tree(&built.benches, &built.groups, Some(&filters), Some((attr, false)));
+                let frev = verif::tree(&built.benches, &built.groups, Some(&filters), Some((attr, true)));
+                r.case(2);
+                let fgot = top(&ffwd);
+                let mut fgot_rev = top(&frev);
+                fgot_rev.reverse();
+                let fwant: Vec<String> = expected_order(&moved, attr).iter().map(|&i| moved[i].name.to_owned()).collect();
+                if fgot != fwant && !(fgot.len() == fwant.len() && ascending(&moved, &fgot, attr)) || fgot_rev != fgot {
+                    r.violation(Violation {
+                        sig: json!({"check":"tree_sort","class":"order-after-filter","attr":attr}),
+                        text: format!("siblings {sibs:?} with the early item of every plain module filtered out, sorted by {}: shown {fgot:?} (--sortr reversed: {fgot_rev:?}), the documented order over what is left is {fwant:?}", ["kind", "name", "location"][attr as usize]),
+                        case: json!({"kind":"siblings","attr":attr,"sibs": sibs.iter().map(|s| json!([s.kind, s.name, s.line, s.col, s.file])).collect::<Vec<_>>()}),
+                    });
                 }
             }
             r.outcome(format!("sib:{attr}:{got:?}"));
